@@ -25,10 +25,10 @@ let ops_of_token (tok : string) : op list =
      | "Lv" -> [OLogv (z 0, z 1, z 2, z 3)]
      | "G" -> [OGenLog (z 0, z 1, z 2, z 3)]
      | "Gf" -> [OGenLogf (z 0, z 1, z 2, z 3)]
-     | "W" ->
+     | "W" | "Wv" ->
        let l = ref [] and m = ref a.(1) in
        for c = -1 to 3 do for q = -2 to 11 do
-         l := OLog (z 0, zi c, zi q, zi !m) :: !l; incr m done done;
+         l := (if name = "W" then OLog (z 0, zi c, zi q, zi !m) else OLogv (z 0, zi c, zi q, zi !m)) :: !l; incr m done done;
        List.rev !l
      | _ -> failwith ("unknown operation " ^ name))
 
